@@ -1027,6 +1027,7 @@ func propC14(r *Run) {
 		primaries = append(primaries, inFile("NC_000913.3.min.gb"))
 	}
 	var hists []cliHist
+	c14KeyEncoding(r)
 	c14Environments(r)
 
 	// --- systematic sweeps, every command
